@@ -771,6 +771,22 @@ def g_special(name, gb):
         def uses(dc=DC2, k=Option("K", "kk")):
             return (dc.s, dc.n, k)
         return uses
+    if name == "datasetclass_in_datasetclass":
+        @datasetclass
+        class Inner:
+            s: str = Option("S.X")
+            n: int = Option("A", 0) >> (lambda x: x + 1)
+
+        @dataset
+        def plus(a=Option("A", 0)):
+            return a + 1
+
+        @datasetclass
+        class Outer:
+            inner: object = Inner
+            p: int = plus
+            k: str = Option("K", "kk")
+        return Outer
     if name == "interface":
         @interface("IMPL")
         class Store:
@@ -1101,6 +1117,18 @@ def g_case(item, options):
     problems += rec.violations()
     if (id(root2), "evaluate") not in rec.req:
         problems.append("the root's evaluate was not seen as an EvaluateRequest")
+    # a dataset class evaluates every evaluatable member (datasets, options, other dataset classes) through a request
+    if isinstance(root2, type) and recd and recd[0][0] == "evaluate" and not (isinstance(recd[0][1], list) and recd[0][1][:1] == ["raised"]):
+        from labrea.types import Evaluatable as _Ev
+        for mname in dir(root2):
+            if mname.startswith("__"):
+                continue
+            try:
+                mv = getattr(root2, mname)
+            except Exception:
+                continue
+            if isinstance(mv, _Ev) and (id(mv), "evaluate") not in rec.req:
+                problems.append(f"evaluating a dataset class evaluated its member `{mname}` without an EvaluateRequest for it")
     kinds = {}
     for (k, _) in rec.log:
         kinds[k] = kinds.get(k, 0) + 1
@@ -1445,6 +1473,7 @@ def fixed_corpus():
         {"name": "namespace_member", "special": "namespace_member"},
         {"name": "datasetclass", "special": "datasetclass"},
         {"name": "datasetclass_in_dataset", "special": "datasetclass_in_dataset"},
+        {"name": "datasetclass_in_datasetclass", "special": "datasetclass_in_datasetclass"},
         {"name": "interface", "special": "interface"},
         {"name": "custom_subclass", "special": "custom_subclass"},
         {"name": "allopts_dataset", "special": "allopts_dataset"},
